@@ -14,6 +14,7 @@ SEEDS = [
     'include "inc.yar"\nrule uses_inc { condition: inc_rule and ext_i + 1 > 2 and ext_s contains "a" and ext_s matches /a.c/ }',
     'rule nest { condition: for any i in (1,2,3) : ( for any j in (1..2) : ( for any k in (0..1) : ( for any m in (0..1) : ( i + j + k + m > 0 ) ) ) ) }',
     'rule cls { strings: $a = /x[\\x80-\\xff]+[^\\x00-\\x1f][a-\\xff]y/ $b = /[\\x00-\\xff]{2}z[\\xfe-\\xff]/ nocase wide condition: $a or $b or ext_s matches /^[\\x7f-\\xff]*$/ }',
+    'rule esc { strings: $a = /ab\\gcd[a-z]{2}\\q(e|f)/ $b = /\\gabc[a-z]d{1,3}/ condition: $a or $b or ext_s matches /x\\gy+(z)/ }',
     'rule arith { condition: (1 + 2 * 3 \\ 4 % 5 - -6) >> 1 << 2 | 3 & 4 ^ ~5 == 0 or not defined uint8(filesize) or 10 of them }',
 ]
 
@@ -148,6 +149,14 @@ def run(chk):
                                "diskfile %s/ok.yar %s" % (d, hx(b"rule inc { condition: true }"))] + \
                               (["diskfile %s/%s %s" % (d, inc, hx(b"rule inc2 { condition: true }"))] if ilen <= 200 else [])
             muts.append(("include-disk", "%s/x.yar" % d))
+    # regexps that are invalid whatever precedes the error: an unknown escape sequence before it (a warning in strict-escape mode) must not
+    # hide the error; every one of these must be rejected with an error, in both modes
+    must_fail = set()
+    for bad_re in ["ab\\g(cd", "\\gabc[z-a]def", "\\gabcd{1,99999}", "ab[\\g]cd)ef", "\\qx{3,2}", "a\\gb(", "(\\g", "x\\g[", "\\g*+?{", "ab(cd", "[z-a]", "x{3,2}", "a)b"]:
+        for tmpl in ['rule bad { strings: $a = /%s/ condition: $a }', 'rule bad { condition: ext_s matches /%s/ }']:
+            for _rep in range(3):          # i % 3 decides strict-escape mode below: cover both
+                must_fail.add(len(muts))
+                muts.append(("invalid-regexp", tmpl % bad_re))
     chain_expect = {}
     for i, (kind, src) in enumerate(muts):
         b = src if isinstance(src, bytes) else src.encode()
@@ -159,8 +168,9 @@ def run(chk):
                                                   "force destroycompiler", "force newcompiler2", "force add " + hx(good.encode()), "force getrules2",
                                                   "force scanner 0", "force scan " + hx(b"xx needle yy"), "force sdestroy", "force destroyrules", "force destroycompiler"]))
             continue
+        strict = ["strictescape"] if i % 3 == 0 else []       # yara -E: unknown escape sequences in regexps are reported as warnings
         cases.append(("m%d" % i, extra.get(i, []) + ["file inc.yar " + hx(b'rule inc_rule { condition: true }'), "file self.yar " + hx(b'include "self.yar"'),
-                                  "newcompiler", "defi ext_i 1", "defs ext_s " + hx(b"abc"), "add " + hx(b),
+                                  "newcompiler"] + strict + ["defi ext_i 1", "defs ext_s " + hx(b"abc"), "add " + hx(b),
                                   "force destroycompiler", "force newcompiler2", "force add " + hx(good.encode()), "force getrules2",
                                   "force scanner 0", "force scan " + hx(b"xx needle yy"), "force sdestroy", "force destroyrules", "force destroycompiler"]))
     # constant-expression sweep: the proved fragment, on the implementation
@@ -204,6 +214,9 @@ def run(chk):
                     chk.violation("diag", "error callback without message (%s)" % kind, replay)
         if (nerr > 0) != (ecb > 0) or (nerr != ecb):
             chk.violation("accounting", "error count %d but %d error callbacks (%s)" % (nerr, ecb, kind), replay)
+            continue
+        if cid.startswith("m") and int(cid[1:]) in must_fail and nerr == 0:
+            chk.violation("invalid-accepted", "an invalid regular expression is accepted without an error: %s" % src[:160], replay)
             continue
         if cid in chain_expect and chain_expect[cid] >= maxdepth + 1 and nerr == 0:
             # the top-level source is not on the stack: ch_1 .. ch_d are d pushes on top of it
